@@ -629,6 +629,95 @@ impl StorageEngine {
         result
     }
 
+    /// Replace tuples of a relation: delete `deletes`, then insert `inserts`, as one operation.
+    ///
+    /// This is what an update statement (`-r(..), +r(..) <- ...`) needs: both halves are logged
+    /// as a single WAL record and applied to the in-memory state under one acquisition of the
+    /// knowledge graph's write lock, so neither a concurrent request nor a crash can observe the
+    /// relation with the old tuples gone and the new ones not yet there. The deletes carry an
+    /// earlier logical time than the inserts, so a tuple that is both deleted and inserted ends
+    /// up present (recovery applies a shard's updates in logical-time order).
+    ///
+    /// Returns `(deleted, newly_inserted)`.
+    pub fn update_tuples_in(
+        &self,
+        kg: &str,
+        relation: &str,
+        deletes: Vec<Tuple>,
+        inserts: Vec<Tuple>,
+    ) -> StorageResult<(usize, usize)> {
+        if inserts.is_empty() {
+            return self.delete_tuples_from(kg, relation, deletes).map(|d| (d, 0));
+        }
+        if deletes.is_empty() {
+            return self.insert_tuples_into(kg, relation, inserts).map(|(n, _)| (0, n));
+        }
+
+        // Same admission checks as insert_tuples_into
+        {
+            let db = self
+                .knowledge_graphs
+                .get(kg)
+                .ok_or_else(|| StorageError::KnowledgeGraphNotFound(kg.to_string()))?;
+            let db = db.read();
+            if db.rule_exists(relation) {
+                return Err(StorageError::Other(format!(
+                    "Cannot insert into '{relation}': it is a derived relation (view). \
+                     Use a base relation or drop the rule first with '.rule drop {relation}'."
+                )));
+            }
+        }
+        let new_arity = inserts.first().map_or(0, super::value::Tuple::arity);
+        for tuple in &inserts {
+            if tuple.arity() != new_arity {
+                return Err(StorageError::Other(format!(
+                    "Arity mismatch in insert batch: expected {}, got {}",
+                    new_arity,
+                    tuple.arity()
+                )));
+            }
+        }
+        if let Some((existing_schema, _)) = self.get_relation_metadata_in(kg, relation)? {
+            let existing_arity = existing_schema.len();
+            if existing_arity != new_arity {
+                return Err(StorageError::Other(format!(
+                    "Arity mismatch for relation '{relation}': existing arity is {existing_arity}, but trying to insert tuples with arity {new_arity}"
+                )));
+            }
+        }
+
+        // Hold the dropping_kgs read guard across persist + apply (see insert_tuples_into)
+        let dropping_guard = self.dropping_kgs.read();
+        if dropping_guard.contains(kg) || !self.knowledge_graphs.contains_key(kg) {
+            return Err(StorageError::KnowledgeGraphNotFound(kg.to_string()));
+        }
+
+        let shard = format!("{kg}:{relation}");
+        let delete_time = self.logical_time.fetch_add(2, Ordering::SeqCst);
+        let insert_time = delete_time + 1;
+
+        let mut updates: Vec<Update> = deletes
+            .iter()
+            .map(|data| Update::delete(data.clone(), delete_time))
+            .collect();
+        updates.extend(inserts.iter().map(|data| Update::insert(data.clone(), insert_time)));
+
+        // Persist first: one append = one WAL record for the whole update
+        self.persist.ensure_shard(&shard)?;
+        self.persist.append(&shard, &updates)?;
+
+        let db = self
+            .knowledge_graphs
+            .get(kg)
+            .ok_or_else(|| StorageError::KnowledgeGraphNotFound(kg.to_string()))?;
+        let mut db = db.write();
+        let deleted = db.delete_in_memory(relation, &deletes, delete_time)?;
+        let (inserted, _duplicates) = db.insert_in_memory(relation, inserts, insert_time)?;
+        drop(db);
+        drop(dropping_guard);
+        Ok((deleted, inserted))
+    }
+
     /// Execute an IQL query on the current knowledge graph
     ///
     /// Returns binary tuples (i32, i32) for backward compatibility.
